@@ -418,6 +418,7 @@ def check(chk):
     _conditions_at_dispatch(chk, repo)
     _enable_state_notifies(chk, repo)
     _time_placeholder_wakeups(chk, repo)
+    _shot_state_change_notified(chk, repo)
 
     # ------------------------------------------------------------ PAIR-19
     f = repo.func("mpf/core/config_player.py", "ConfigPlayer._update_subscription")
@@ -571,6 +572,29 @@ def _time_placeholder_wakeups(chk, repo):
                f.where(n.ast), detail="sleeps %s = %s" % (src(n.ast.value.args[0]), norm), construct=f.ident, text="time wake-up for " + which)
     chk.ob("TIME-16", "wake-ups for second, minute and hour examined", seen == {"second", "minute", "hour"}, f.where(), detail=str(sorted(seen)), construct=f.ident,
            text="time wake-ups present")
+
+
+def _shot_state_change_notified(chk, repo):
+    """NOTIFY-1 (shot state): a shot's state lives in a player variable; `state` and `state_name` are virtual attributes, so their subscribers
+    are woken by explicit notify_virtual_change(name, old, new) calls - which are dropped when old == new.  The old values are read before the
+    new state is stored, the new ones after; both attributes are announced on every path that stores."""
+    f = repo.func("mpf/devices/shot.py", "Shot._set_state")
+    chk.analysed(f)
+    cfg = f.cfg()
+    store = [n for n in cfg.nodes if n.kind == "stmt" and isinstance(n.ast, ast.Assign) and src(n.ast.targets[0]) == "self.player[self._player_var_name]"]
+    chk.need(len(store) == 1, "NOTIFY-1", "Shot._set_state stores the new state in the player variable", f)
+    olds = [n for n in cfg.nodes if n.kind == "stmt" and isinstance(n.ast, ast.Assign) and isinstance(n.ast.targets[0], ast.Name) and n.ast.targets[0].id in ("old", "old_name")
+            and ("self.player[" in src(n.ast.value) or "self.state_name" in src(n.ast.value))]
+    ok = len(olds) >= 2 and all(store[0].id not in cfg.reachable([o.id], include_start=False, ignore_exc=False) or cfg.dominates(o.id, store[0].id) for o in olds) and \
+        all(not cfg.path_avoiding(store[0].id, [o.id], [], ignore_exc=False) for o in olds)
+    chk.ob("NOTIFY-1", "Shot._set_state reads the old state and the old state name before it stores the new state", ok, f.where(store[0].ast), construct=f.ident,
+           detail="read after the store, old == new and the notification is dropped", text="shot old values read before the store")
+    nots = [(n, c) for n, c in cfg.calls_named("notify_virtual_change")]
+    names = {const_value(c.args[0]) for n, c in nots if c.args}
+    ok = names >= {"state", "state_name"} and all(cfg.dominates(store[0].id, n.id) for n, c in nots) and \
+        all(cfg.must_pass(store[0].id, [n.id for n, c in nots if c.args and const_value(c.args[0]) == nm]) is None for nm in ("state", "state_name"))
+    chk.ob("NOTIFY-1", "after the store both `state` and `state_name` are announced on every path", ok, f.where(), detail=str(sorted(map(str, names))), construct=f.ident,
+           text="shot state announcements")
 
 
 def _conditions_at_dispatch(chk, repo):
@@ -810,6 +834,7 @@ def _flow(chk, f, fcfg, node, expr, subs, acc, what):
 def battery():
     from sa.battery import M
     return [
+        M("shot stores the new state before reading the old name", "mpf/devices/shot.py", "        old = self.player[self._player_var_name]\n        try:", "        old = self.player[self._player_var_name]\n        self.player[self._player_var_name] = state\n        try:", "NOTIFY-1"),
         M("hour subscription wakes a minute late", "mpf/core/placeholder_manager.py", "asyncio.sleep(3600 - current_time.second - 60 * current_time.minute)", "asyncio.sleep(60 * (60 - current_time.minute) + 60 - current_time.second)", "TIME-16"),
         M("twin: hour wake-up spelled as minutes and seconds left", "mpf/core/placeholder_manager.py", "asyncio.sleep(3600 - current_time.second - 60 * current_time.minute)", "asyncio.sleep(60 * (59 - current_time.minute) + 60 - current_time.second)", None),
         M("enabled change notified only for the unpersisted state", "mpf/core/enable_disable_mixin.py", "        self.enabled = True\n        self.notify_virtual_change(\"enabled\", False, True)      # type: ignore\n", "        self.enabled = True\n", "NOTIFY-1",
